@@ -384,6 +384,7 @@ func runMkdir(m *Model, c Case) ([]Diff, string) {
 	before := snapshot(jail)
 	target := c.targetIn(jail)
 	extsBefore := append([]string{}, c.Exts...)
+	cwdCheck := guardWorkDir(c)
 	opts := append([]gtree.Option{gtree.WithTargetDir(target), gtree.WithFileExtensions(c.Exts)}, strayOpts(c)...)
 	var written bytes.Buffer
 	var err error
@@ -405,12 +406,17 @@ func runMkdir(m *Model, c Case) ([]Diff, string) {
 	}
 	if c.Dry {
 		opts = append(opts, gtree.WithDryRun())
-		colorOutMu.Lock()
-		old := color.Output
-		color.Output = &written
-		call()
-		color.Output = old
-		colorOutMu.Unlock()
+		func() {
+			// released also when the call panics (C12 recovers the panic and reports it; the other cases must go on)
+			colorOutMu.Lock()
+			old := color.Output
+			color.Output = &written
+			defer func() {
+				color.Output = old
+				colorOutMu.Unlock()
+			}()
+			call()
+		}()
 	} else {
 		call()
 	}
@@ -430,7 +436,7 @@ func runMkdir(m *Model, c Case) ([]Diff, string) {
 		parts := strings.SplitN(resp, " ", 2)
 		modelv = "fs=" + stripAmbient(jail, strings.TrimPrefix(parts[0], "fs=")) + " " + parts[1]
 	}
-	return cmp("mkdir", realv, modelv), realv
+	return append(cmp("mkdir", realv, modelv), cwdCheck()...), realv
 }
 
 func runVerify(m *Model, c Case) ([]Diff, string) {
